@@ -276,6 +276,7 @@ var addrPool = [][]uint{{1}, {2}, {3}, {4}, {1, 1}, {1, 2}, {2, 1}, {1, 1, 1}}
 var entityTypes = []model.EntityTypeType{
 	model.EntityTypeTypeCEM, model.EntityTypeTypeEVSE, model.EntityTypeTypeEV, model.EntityTypeTypeHeatPumpAppliance,
 	model.EntityTypeTypeBattery, model.EntityTypeTypeGeneric, model.EntityTypeTypeCompressor,
+	model.EntityTypeTypeDeviceInformation, // the type of entity [0]; an application entity may carry it as well
 }
 
 // commonTypes are drawn most of the time so that a second feature of the same type and role on
@@ -782,6 +783,18 @@ func (m *machine) addFunction(t *rapid.T) {
 		t.Skip("feature type without functions")
 	}
 	gf := fns[rapid.IntRange(0, len(fns)-1).Draw(t, "function")]
+	foreign := false
+	if rapid.IntRange(0, 5).Draw(t, "foreignFunction") == 0 {
+		// an unusual but accepted configuration: a function that belongs to another feature type (the feature
+		// holds no data for it); it is a function "added to the feature" and is announced with the flags given
+		all := gen.Table()
+		if c := all[rapid.IntRange(0, len(all)-1).Draw(t, "anyFunction")]; c.FeatureType != f.typ && f.typ != model.FeatureTypeTypeGeneric && c.Fn != model.FunctionTypeDeviceDiagnosisHeartbeatData {
+			if _, isOwn := ownFunction(fns, c.Fn); !isOwn {
+				gf, foreign = c, true
+				world.Label("addFunction/foreign-function")
+			}
+		}
+	}
 	read := rapid.Bool().Draw(t, "read")
 	write := rapid.Bool().Draw(t, "write")
 	kind := "addFunction"
@@ -795,10 +808,20 @@ func (m *machine) addFunction(t *rapid.T) {
 		m.sawClientFn = true
 		kind = "addFunction-client"
 	} else if _, ok := f.funcs[gf.Fn]; !ok {
-		wp := write && reflect.PointerTo(gf.DataType).Implements(updaterType)
+		// (restricted writes need the function's data, which the feature does not hold for a foreign function)
+		wp := write && reflect.PointerTo(gf.DataType).Implements(updaterType) && !foreign
 		f.funcs[gf.Fn] = opsM{read: read, write: write, writePartial: wp}
 	}
 	m.mutated(kind)
+}
+
+func ownFunction(fns []gen.Func, fn model.FunctionType) (gen.Func, bool) {
+	for _, x := range fns {
+		if x.Fn == fn {
+			return x, true
+		}
+	}
+	return gen.Func{}, false
 }
 
 func (m *machine) describe(t *rapid.T) {
